@@ -75,11 +75,17 @@ type acq struct {
 //	newerr   NewProvider failed
 //	panic / hang
 func RunProvider(decoder string, file []byte, k int, passes, limit uint) string {
+	return RunProviderOpt(decoder, file, k, passes, limit, false)
+}
+
+// RunProviderOpt: as RunProvider, optionally with Preload (the whole file is decoded first,
+// then replayed from memory).
+func RunProviderOpt(decoder string, file []byte, k int, passes, limit uint, preload bool) string {
 	fs := afero.NewMemMapFs()
 	if err := afero.WriteFile(fs, "ammo", file, 0o644); err != nil {
 		return "harness-error"
 	}
-	conf := config.Config{Decoder: config.DecoderType(decoder), File: "ammo", Passes: passes, Limit: limit}
+	conf := config.Config{Decoder: config.DecoderType(decoder), File: "ammo", Passes: passes, Limit: limit, Preload: preload}
 	var out []string
 	var prov core.Provider
 	newRes := make(chan string, 1)
